@@ -49,6 +49,14 @@ enum HandOut {
     InvalidIndex,
     OtherErr(String),
 }
+/// do the (rank, suit) enumeration members returned for a token agree with the card the token denotes?
+fn members_ok(exp_word: u32, r: u8, su: u8) -> bool {
+    match word_to_card(exp_word) {
+        Some(c) => r == c.rank() + 2 && su == c.suit() + 1,
+        None => r == 0 || su == 0,
+    }
+}
+
 fn try_size(n: usize, st: &'static str) -> HandOut {
     fn conv<T>(r: Result<T, HandError>, f: impl Fn(T) -> Vec<u32>) -> HandOut {
         match r {
@@ -98,14 +106,10 @@ pub fn judge(case: &Case) -> Verdict {
                     if w != exp {
                         return Verdict::Violated { class: format!("token:{}", if exp == 0 { "non-card-token-gives-a-card" } else if w == 0 { "card-token-gives-blank" } else { "wrong-card" }), expected: format!("{} for token {:?}", show_word(exp), s), observed: show_word(w) };
                     }
-                    // get_rank_and_suit: with two or more chars, the two symbol tables applied to the first two chars
-                    let mut it = s.chars();
-                    let (er, es) = match (it.next(), it.next()) {
-                        (Some(a), Some(b)) => (rank_disc(a), suit_disc(b)),
-                        _ => (0, 0),
-                    };
-                    if (r, su) != (er, es) {
-                        return Verdict::Violated { class: "get_rank_and_suit:wrong-members".into(), expected: format!("({}, {}) for {:?}", er, es, s), observed: format!("({}, {})", r, su) };
+                    // get_rank_and_suit is judged only as far as the statement determines it: it names a real rank AND a
+                    // real suit exactly when the token is a card, and then exactly that card's rank and suit
+                    if !members_ok(exp, r, su) {
+                        return Verdict::Violated { class: "get_rank_and_suit:members-do-not-match-the-card".into(), expected: format!("{} for {:?}", match word_to_card(exp) { Some(c) => format!("(rank member {}, suit member {})", c.rank() + 2, c.suit() + 1), None => "a blank rank or a blank suit".to_string() }, s), observed: format!("({}, {})", r, su) };
                     }
                     Verdict::Holds
                 }
@@ -185,15 +189,10 @@ fn check_token(acc: &mut Acc, s: &str) {
         acc.nontrivial += 1;
         acc.hist[0] += 1;
     }
-    let mut it = s.chars();
-    let (er, es) = match (it.next(), it.next()) {
-        (Some(a), Some(b)) => (rank_disc(a), suit_disc(b)),
-        _ => (0, 0),
-    };
     let ok = matches!(guard(|| {
         let (r, su) = ckc_rs::parse::get_rank_and_suit(s);
         (CKCNumber::from_index(s), r as u8, su as u8)
-    }), Ok((w, r, su)) if w == exp && r == er && su == es);
+    }), Ok((w, r, su)) if w == exp && members_ok(exp, r, su));
     if !ok {
         match confirm(judge, Case::text("token", s, &[])) {
             Some(v) => acc.violate(v),
